@@ -252,7 +252,7 @@ def _k2_job(job):
         s = z3.Solver(); s.add(valid, *pr.pc)
         def wit(role, what):
             m = s.model(); data = bytes(x if isinstance(x, int) else m.eval(x, True).as_long() for x in allb)
-            part.add(role, '%s (witness %r)' % (what, data.decode('utf-8', 'replace')), {'source_bytes': list(data)}, ('tokens', (data,)))
+            part.add(role, '%s (witness %r)' % (what, data.decode('utf-8', 'replace')), {'source_bytes': list(data)}, ('lexes_as_written', (data,)))
         t = time.time(); r = s.check(); part.solver_s += time.time() - t; part.queries += 1
         if r != z3.sat: return
         part.nontrivial += 1
